@@ -223,6 +223,17 @@ pub fn run_on_this_thread(plan: &Plan, keep_trace: bool) -> RunOutput {
                         }
                     }
                     *out.faults.entry("reconfigure".into()).or_insert(0) += 1;
+                } else {
+                    // fault: a shrink below the greatest height in use. Whether it is refused by a
+                    // panic is not judged; once refused it must have changed nothing, so the
+                    // history continues under the old limit
+                    let st = sim.state.clone();
+                    let r = catch_unwind(AssertUnwindSafe(|| st.set_max_height_allowed(cfg.n)));
+                    log.push(format!("set_max_height_allowed({}) with max height seen {} -> {}", cfg.n, seen_so_far, if r.is_ok() { "ok" } else { "refused" }));
+                    if r.is_ok() {
+                        break;
+                    }
+                    *out.faults.entry("reconfigure_refused".into()).or_insert(0) += 1;
                 }
             }
             let step = sim.apply(a);
